@@ -744,7 +744,26 @@ func checkPatcherDiscipline(e *Env, p *load.Program) {
 		for _, c := range callsToFn(f, ia) {
 			nAnchor++
 			o := res.Of(c.Call.Args[1], nil, c)
-			good := o.Kind == origin.KField && o.Field.Name() == "index" && o.Args[0].Kind == origin.KParam && isNamed(o.Args[0].Type, load.PkgRoot, "JumpIf")
+			isJumpIndex := func(o *origin.O) bool {
+				o = o.StripConv()
+				if o.Kind != origin.KField || o.Field.Name() != "index" {
+					return false
+				}
+				b := o.Args[0]
+				return (b.Kind == origin.KParam || b.Kind == origin.KElem) && isNamed(b.Type, load.PkgRoot, "JumpIf")
+			}
+			good := isJumpIndex(o)
+			if !good {
+				// the anchor arrives as a position parameter: every caller passes the index of the jump it resolves
+				if alts := argsOfParam(p, c.Call.Args[1], 0); len(alts) > 0 {
+					good = true
+					for _, a := range alts {
+						if !isJumpIndex(res.Of(a.v, nil, a.at)) {
+							good = false
+						}
+					}
+				}
+			}
 			r.Check(good, "E2.order", load.FuncName(f)+"/bridge-directly-behind-current-jump", p.Pos(c.Pos()),
 				"the bridge is inserted directly behind the jump being resolved (anchor = the current jump's own index)",
 				"a bridge is inserted behind "+o.String()+", not directly behind the jump being resolved: jumps between the anchor and the current jump, or already finalised ones, are moved relative to their targets")
@@ -898,7 +917,24 @@ func checkPatcherDiscipline(e *Env, p *load.Program) {
 	// ---- final: skips are read for the matching label after a quiescent pass, no mutation before the store back
 	nFinal := 0
 	var jumpInst *ssa.Alloc
-	for _, b := range asm.Blocks {
+	// the function that finalises a jump: the patcher function that stores JumpIf.SkipTrue / SkipFalse (Program.Assemble
+	// itself, or a per-jump helper it calls)
+	fin := asm
+	for _, f := range p.SrcFuncs(load.PkgRoot) {
+		if f != asm && !reachesFnFrom(asm, f) {
+			continue
+		}
+		for _, b := range f.Blocks {
+			for _, in := range b.Instrs {
+				if st, ok := in.(*ssa.Store); ok {
+					if sf, ok := skipFieldStore(st); ok && strings.HasPrefix(sf, "JumpIf.") {
+						fin = f
+					}
+				}
+			}
+		}
+	}
+	for _, b := range fin.Blocks {
 		for _, in := range b.Instrs {
 			st, ok := in.(*ssa.Store)
 			if !ok {
@@ -934,10 +970,10 @@ func checkPatcherDiscipline(e *Env, p *load.Program) {
 			r.Check(goodLabel, "E2.final", key+"/label", p.Pos(call.Pos()), sf+" is the distance to the jump's "+want, fmt.Sprintf("%s is computed for label %s, want the jump's %s: the branches are exchanged", sf, lo, want))
 			// no mutator call can execute between this read and the store of the instruction back into the list
 			var back *ssa.Store
-			for _, b2 := range asm.Blocks {
+			for _, b2 := range fin.Blocks {
 				for _, in2 := range b2.Instrs {
 					if s2, ok := in2.(*ssa.Store); ok {
-						if path, ok := storePath(s2.Addr, asm.Params[0]); ok && path == ".instructions[]" {
+						if path, ok := storePath(s2.Addr, fin.Params[0]); ok && path == ".instructions[]" {
 							back = s2
 						}
 					}
@@ -948,7 +984,7 @@ func checkPatcherDiscipline(e *Env, p *load.Program) {
 				continue
 			}
 			clean := true
-			for _, c2 := range flow.Calls(asm) {
+			for _, c2 := range flow.Calls(fin) {
 				m, ok := c2.(*ssa.Call)
 				if !ok || !isMutator(flow.Callee(m)) || m == call {
 					continue
@@ -963,7 +999,7 @@ func checkPatcherDiscipline(e *Env, p *load.Program) {
 			}
 			// quiescence: the read is dominated by the exit of a loop whose continuation condition is "the list grew during the pass",
 			// or the value is 8-bit by construction (returned by resolveLabel after its own range handling and no later insertion)
-			q := quiescent(asm, call, rl, res, isMutator)
+			q := quiescent(fin, call, rl, res, isMutator)
 			r.Check(q, "E2.final", key+"/after-quiescent-pass", p.Pos(call.Pos()),
 				"the skip is read after a pass of both label resolutions that inserted nothing (both targets within 8-bit reach)",
 				"the skip is converted to 8 bits without a preceding pass of both label resolutions that left the layout unchanged: a bridge inserted for the other branch can push this target out of reach (silent truncation)")
@@ -1162,20 +1198,22 @@ func checkPatcherDiscipline(e *Env, p *load.Program) {
 		// the long branch is taken exactly above 255
 		thr := false
 		for _, b := range rl.Blocks {
-			if ifi, ok := flow.LastIf(b); ok {
-				if bo, ok := ifi.Cond.(*ssa.BinOp); ok && (bo.Op == token.GTR || bo.Op == token.GEQ) {
-					// a bridge is needed above 255; bridging earlier is harmless, later is not
-					k, ok := flow.ConstInt(bo.Y)
-					if bo.Op == token.GEQ {
-						k--
-					}
-					if ok && k <= 255 && k >= 1 {
-						// true edge leads to the insertAfter call
-						for _, c := range callsToFn(rl, ia) {
-							if flow.EdgeDominates(b, b.Succs[0], c.Block()) {
-								thr = true
-							}
-						}
+			ifi, ok := flow.LastIf(b)
+			if !ok || len(b.Succs) != 2 {
+				continue
+			}
+			for k, pol := range []bool{true, false} {
+				pr, ok := flow.AsIntPred(ifi.Cond, pol)
+				if !ok {
+					continue
+				}
+				// this edge is taken for every distance above 255 (bridging earlier is harmless, later is not) and not for 0
+				if !(pr.Holds(256) && pr.Holds(257) && pr.Holds(1<<20) && pr.Holds(1<<31-1)) || pr.Holds(0) {
+					continue
+				}
+				for _, c := range callsToFn(rl, ia) {
+					if flow.EdgeDominates(b, b.Succs[k], c.Block()) {
+						thr = true
 					}
 				}
 			}
@@ -1321,46 +1359,78 @@ func quiescent(asm *ssa.Function, call *ssa.Call, rl *ssa.Function, res *origin.
 			}
 		}
 	}
+	isLenInstr := func(v ssa.Value) bool {
+		o := res.Of(v, nil, nil)
+		return o.Kind == origin.KLen && strings.HasSuffix(o.Args[0].String(), ".instructions")
+	}
 	for _, bo := range eqs {
-		lx := res.Of(bo.X, nil, bo)
-		ly := res.Of(bo.Y, nil, bo)
-		if lx.Kind != origin.KLen || ly.Kind != origin.KLen || !strings.HasSuffix(lx.Args[0].String(), ".instructions") || !strings.HasSuffix(ly.Args[0].String(), ".instructions") {
-			continue
-		}
-		// both label resolutions lie between the two length reads
-		first, _ := bo.X.(ssa.Instruction)
-		second, _ := bo.Y.(ssa.Instruction)
-		if first == nil || second == nil {
-			continue
-		}
-		if flow.InstrDominates(second, first) {
-			first, second = second, first
-		}
-		labels := map[string]bool{}
-		for _, c := range callsToFn(asm, rl) {
-			if flow.InstrDominates(first, c) && flow.InstrDominates(c, second) {
-				lo := res.Of(c.Call.Args[len(c.Call.Args)-1], nil, c)
-				if lo.Kind == origin.KField {
-					labels[lo.Field.Name()] = true
+		// one side is the length read after the pass; the other the length remembered before it - directly, or as a
+		// loop-carried variable whose other incoming values cannot equal a length (negative constants)
+		var pairs [][2]ssa.Instruction
+		for _, pr := range [][2]ssa.Value{{bo.X, bo.Y}, {bo.Y, bo.X}} {
+			after, okA := pr[1].(ssa.Instruction)
+			if !okA || !isLenInstr(pr[1]) {
+				continue
+			}
+			if before, ok := pr[0].(ssa.Instruction); ok && isLenInstr(pr[0]) {
+				if _, isPhi := pr[0].(*ssa.Phi); !isPhi {
+					pairs = append(pairs, [2]ssa.Instruction{before, after})
+					continue
+				}
+			}
+			if ph, ok := pr[0].(*ssa.Phi); ok {
+				good := true
+				var before ssa.Instruction
+				for _, ed := range ph.Edges {
+					if k, isK := flow.ConstInt(ed); isK {
+						if k >= 0 {
+							good = false
+						}
+						continue
+					}
+					if in, ok := ed.(ssa.Instruction); ok && isLenInstr(ed) && before == nil {
+						before = in
+						continue
+					}
+					good = false
+				}
+				if good && before != nil {
+					pairs = append(pairs, [2]ssa.Instruction{before, after})
 				}
 			}
 		}
-		if !labels["trueLabel"] || !labels["falseLabel"] {
-			continue
-		}
-		// nothing changes the layout between the second length read and the skip read
-		clean := true
-		for _, c2 := range flow.Calls(asm) {
-			m, ok := c2.(*ssa.Call)
-			if !ok || m == call || !isMutator(flow.Callee(m)) {
+		for _, fs := range pairs {
+			first, second := fs[0], fs[1]
+			if first == second {
 				continue
 			}
-			if instrReachesNoRepeat(second, m, second) && instrReachesNoRepeat(m, call, second) {
-				clean = false
+			// both label resolutions lie between the two length reads: every way from the first read to the second passes them
+			labels := map[string]bool{}
+			for _, c := range callsToFn(asm, rl) {
+				if instrReachesNoRepeat(first, c, second) && !instrReachesNoRepeat(first, second, c) {
+					lo := res.Of(c.Call.Args[len(c.Call.Args)-1], nil, c)
+					if lo.Kind == origin.KField {
+						labels[lo.Field.Name()] = true
+					}
+				}
 			}
-		}
-		if clean {
-			return true
+			if !labels["trueLabel"] || !labels["falseLabel"] {
+				continue
+			}
+			// nothing changes the layout between the second length read and the skip read
+			clean := true
+			for _, c2 := range flow.Calls(asm) {
+				m, ok := c2.(*ssa.Call)
+				if !ok || m == call || !isMutator(flow.Callee(m)) {
+					continue
+				}
+				if instrReachesNoRepeat(second, m, second) && instrReachesNoRepeat(m, call, second) {
+					clean = false
+				}
+			}
+			if clean {
+				return true
+			}
 		}
 	}
 	return false
@@ -1627,4 +1697,137 @@ func expandSlice(v ssa.Value, depth int) ([]slicePiece, bool) {
 		}
 	}
 	return []slicePiece{{v, false}}, true
+}
+
+// Structural identification of the patcher's helpers (used when a helper was renamed and its signature changed): the
+// patcher is everything Program.Assemble reaches inside the package;
+//
+//	insertAfter   = the patcher function that assigns the instruction list (it grows it),
+//	updateIndices = the patcher function that stores into the index of jump records,
+//	computeSkipN  = the patcher function with a single int result that reads the label table and writes nothing,
+//	resolveLabel  = the patcher function (other than Assemble) that calls insertAfter.
+func init() {
+	patcherFns := func(p *load.Program) (asm *ssa.Function, fns []*ssa.Function) {
+		asm = p.Func(load.PkgRoot, "Program.Assemble")
+		if asm == nil {
+			return nil, nil
+		}
+		for _, f := range p.SrcFuncs(load.PkgRoot) {
+			if f != asm && f.Parent() == nil && reachesFnFrom(asm, f) {
+				fns = append(fns, f)
+			}
+		}
+		return asm, fns
+	}
+	storesPath := func(f *ssa.Function, path string) bool {
+		if len(f.Params) == 0 {
+			return false
+		}
+		for _, b := range f.Blocks {
+			for _, in := range b.Instrs {
+				if st, ok := in.(*ssa.Store); ok {
+					if pt, ok := storePath(st.Addr, f.Params[0]); ok && pt == path {
+						return true
+					}
+				}
+			}
+		}
+		return false
+	}
+	unique := func(fns []*ssa.Function, pred func(*ssa.Function) bool) *ssa.Function {
+		var found *ssa.Function
+		for _, f := range fns {
+			if pred(f) {
+				if found != nil {
+					return nil
+				}
+				found = f
+			}
+		}
+		return found
+	}
+	load.RoleFinders[load.PkgRoot+".Program.insertAfter"] = func(p *load.Program) *ssa.Function {
+		_, fns := patcherFns(p)
+		return unique(fns, func(f *ssa.Function) bool { return storesPath(f, ".instructions") })
+	}
+	load.RoleFinders[load.PkgRoot+".Program.updateIndices"] = func(p *load.Program) *ssa.Function {
+		_, fns := patcherFns(p)
+		return unique(fns, func(f *ssa.Function) bool { return storesPath(f, ".jumps[].index") })
+	}
+	load.RoleFinders[load.PkgRoot+".Program.computeSkipN"] = func(p *load.Program) *ssa.Function {
+		_, fns := patcherFns(p)
+		return unique(fns, func(f *ssa.Function) bool {
+			if f.Signature.Results().Len() != 1 {
+				return false
+			}
+			bt, ok := f.Signature.Results().At(0).Type().Underlying().(*types.Basic)
+			if !ok || bt.Kind() != types.Int {
+				return false
+			}
+			reads := false
+			for _, b := range f.Blocks {
+				for _, in := range b.Instrs {
+					switch x := in.(type) {
+					case *ssa.Store, *ssa.MapUpdate:
+						return false
+					case *ssa.Call:
+						if _, isB := x.Call.Value.(*ssa.Builtin); !isB {
+							return false
+						}
+					case *ssa.Lookup:
+						reads = true
+					}
+				}
+			}
+			return reads
+		})
+	}
+	load.RoleFinders[load.PkgRoot+".Program.resolveLabel"] = func(p *load.Program) *ssa.Function {
+		_, fns := patcherFns(p)
+		ia := p.Func(load.PkgRoot, "Program.insertAfter")
+		if ia == nil {
+			return nil
+		}
+		return unique(fns, func(f *ssa.Function) bool { return f != ia && len(callsToFn(f, ia)) > 0 })
+	}
+}
+
+
+type argAt struct {
+	v  ssa.Value
+	at ssa.Instruction
+}
+
+// argsOfParam: for a parameter of an unexported function, the values passed at every call site in the package (followed
+// through further parameters); nil if v is not such a parameter or a call site cannot be seen.
+func argsOfParam(p *load.Program, v ssa.Value, depth int) []argAt {
+	prm, ok := flow.StripConv(v).(*ssa.Parameter)
+	if !ok || depth > 3 {
+		return nil
+	}
+	fn := prm.Parent()
+	if fn.Object() == nil || fn.Object().Exported() || usedAsValue(p, fn) {
+		return nil
+	}
+	idx := -1
+	for k, q := range fn.Params {
+		if q == prm {
+			idx = k
+		}
+	}
+	var out []argAt
+	for _, f := range p.SrcFuncs(load.PkgRoot) {
+		for _, c := range flow.Calls(f) {
+			if flow.Callee(c) != fn || idx >= len(c.Common().Args) {
+				continue
+			}
+			a := c.Common().Args[idx]
+			if deeper := argsOfParam(p, a, depth+1); deeper != nil {
+				out = append(out, deeper...)
+			} else {
+				out = append(out, argAt{a, c})
+			}
+		}
+	}
+	return out
 }
